@@ -1,4 +1,5 @@
 import E3fpVerif.Model.Pipeline
+import E3fpVerif.Lemmas.Digits
 namespace E3fpVerif.Props.C14
 open E3fpVerif
 
@@ -25,5 +26,86 @@ theorem confName_nosuffix (name : List Char) (h : NoSuffix name) (j : Nat) :
 
 /-- names with a numeric suffix are re-parsed: the exclusion in the property is necessary -/
 example : confName ['a', 'b', 'c', '_', '7'] 0 = ['a', 'b', 'c', '_', '0'] := by decide
+
+/-! ## conformer names are unique within a molecule -/
+
+/-- reading a printed index gives the index back -/
+theorem digitsNat_natDigits (n : Nat) : digitsNat? (natDigits n) = some n := E3fpVerif.digitsNat_natDigits n
+
+/-- distinct indices print differently -/
+theorem natDigits_injective (a b : Nat) (h : natDigits a = natDigits b) : a = b :=
+  E3fpVerif.natDigits_injective a b h
+
+/-- distinct conformer indices give distinct conformer names (for every molecule name: the
+re-parsed prefix does not depend on the index) -/
+theorem confName_injective_all (name : List Char) (i j : Nat) (h : confName name i = confName name j) : i = j := by
+  unfold confName at h
+  simp only at h
+  exact natDigits_injective i j (List.append_cancel_left h)
+
+/-- for a suffix-free name, `name_i = name_j` only when `i = j` -/
+theorem confName_injective (name : List Char) (_h : NoSuffix name) (i j : Nat)
+    (he : confName name i = confName name j) : i = j :=
+  confName_injective_all name i j he
+
+/-- the names given to the conformers `0 .. k-1` of a molecule are pairwise distinct -/
+theorem confNames_nodup (name : List Char) (k : Nat) : ((List.range k).map (confName name)).Nodup := by
+  unfold List.Nodup
+  rw [List.pairwise_map]
+  refine (List.nodup_range (n := k)).imp ?_
+  intro i j hij h
+  exact hij (confName_injective_all name i j h)
+
+example : NoSuffix ['a', 'b', 'c'] ∧ confName ['a', 'b', 'c'] 12 = ['a', 'b', 'c', '_', '1', '2'] := by decide
+
+/-- the conformer index is recovered from the name -/
+theorem confName_parse_index (name : List Char) (h : NoSuffix name) (j : Nat) :
+    digitsNat? ((confName name j).drop (name.length + 1)) = some j := by
+  rw [confName_nosuffix name h j]
+  simp [E3fpVerif.digitsNat_natDigits]
+
+/-! ## level keys and level selection -/
+
+theorem levelKeys_unbounded (b : Bool) : levelKeys (-1) b = [-1] := by simp [levelKeys]
+
+theorem levelKeys_single (l : Int) : levelKeys l false = [l] := by simp [levelKeys]
+
+theorem levelKeys_all (l : Int) (h : 0 ≤ l) :
+    levelKeys l true = (List.range (l.toNat + 1)).map (fun (i : Nat) => Int.ofNat i) := by
+  have : ¬ l = -1 := by omega
+  simp [levelKeys, this]
+
+/-- with all iterations kept, the keys are exactly the levels `0 ≤ k ≤ l` -/
+theorem mem_levelKeys_all (l : Int) (h : 0 ≤ l) (k : Int) : k ∈ levelKeys l true ↔ 0 ≤ k ∧ k ≤ l := by
+  rw [levelKeys_all l h]
+  simp only [List.mem_map, List.mem_range]
+  constructor
+  · rintro ⟨i, hi, rfl⟩
+    simp only [Int.ofNat_eq_natCast]
+    omega
+  · rintro ⟨h0, hl⟩
+    exact ⟨k.toNat, by omega, by simp only [Int.ofNat_eq_natCast]; omega⟩
+
+example : levelKeys 3 true = [0, 1, 2, 3] := by decide
+
+theorem level_mem_levelKeys (l : Int) (a : Bool) (h : -1 ≤ l) : l ∈ levelKeys l a := by
+  by_cases h1 : l = -1
+  · subst h1; simp [levelKeys]
+  · cases a with
+    | false => simp [levelKeys]
+    | true => exact (mem_levelKeys_all l (by omega) l).mpr ⟨by omega, Int.le_refl l⟩
+
+/-- the requested level is the one selected (any legal level `l ≥ -1`) -/
+theorem selectLevel_requested (l : Int) (a : Bool) (h : -1 ≤ l) : selectLevel (levelKeys l a) (some l) = some l := by
+  unfold selectLevel
+  simp only
+  rw [if_pos]
+  simpa using level_mem_levelKeys l a h
+
+example : selectLevel (levelKeys 5 true) (some 5) = some 5 := by decide
+
+/-- the bound `-1 ≤ l` is needed: an (illegal) level below `-1` with all iterations gives the key
+set `[0]`, from which the fallback `max(keys)` is taken -/
+example : selectLevel (levelKeys (-2) true) (some (-2)) = some 0 := by decide
 
 end E3fpVerif.Props.C14
